@@ -151,7 +151,14 @@ impl Text {
 
     /// get the textwidth in terms of cell grid points
     fn text_width(&self) -> f32 {
-        self.text.len() as f32 * CellGrid::width() * self.scale
+        // in display columns, not utf-8 bytes: a multi-byte word must not claim the cells
+        // to its right
+        let columns: usize = self
+            .text
+            .chars()
+            .map(|ch| ch.width().unwrap_or(1).max(1))
+            .sum();
+        columns as f32 * CellGrid::width() * self.scale
     }
 
     pub(crate) fn absolute_position(&self, cell: Cell) -> Self {
